@@ -11,9 +11,8 @@ import ast
 import re
 
 from sa import sigdata
-from sa.interp import Interp, Scenario, Sym, Const, Bytes, render
+from sa.interp import Interp, Scenario, Sym, Const, Enum, render
 from sa.loader import AnalysisError, dotted
-from sa.cfg import CFG, calls_in
 from sa import verdict
 from sa import families
 from sa import guards
@@ -154,85 +153,87 @@ def check_not_implemented(rep, prog):
 
 # ------------------------------------------------------------------------------------------------ C01.3
 def check_material_verify(rep, prog):
+    """Decided on interpreter paths with the three caller values pinned by parameter position (<subj>, <sigbytes>,
+    <hash_alg>): a path whose return value is not a falsy constant must have made the library call and must not have
+    passed through any exception handler; the library call receives the caller's values in their roles."""
     fields = prog.module('pgpy.packet.fields')
     n = 0
     for ci in fields.classes.values():
         f = ci.methods.get('verify')
         if f is None:
             continue
-        body = [st for st in f.node.body if not (isinstance(st, ast.Expr) and isinstance(st.value, ast.Constant))]
-        if len(body) == 1 and isinstance(body[0], ast.Return) and isinstance(body[0].value, ast.Name) and \
-                body[0].value.id == 'NotImplemented':
+        p = f.params
+        if len(p) != 4:
+            raise AnalysisError('%s.verify no longer takes (subj, sigbytes, hash_alg)' % ci.name)
+        sc = Scenario(args={p[1]: Sym('<subj>', nonnull=True), p[2]: Sym('<sigbytes>', nonnull=True), p[3]: Sym('<hash_alg>', nonnull=True)},
+                      inline=lambda fn: False)
+        outs = Interp(prog, sc).run(f)
+
+        def lib(c):
+            return c[0].endswith('.verify') and '__pubkey__' in c[0]
+        if outs and all(s.raised is None and s.ret is not None and render(s.ret) == 'NotImplemented' and not any(lib(c) for c in s.calls)
+                        for s in outs):
             continue   # abstract default: PGPKey.verify turns NotImplemented into an exception (C01.2)
         n += 1
         rep.saw(fn=f)
         construct = '%s.verify' % ci.name
-        g = CFG(f.node)
-        rep.analysed['paths'] += 1
-
-        def is_lib_verify(call):
-            return isinstance(call.func, ast.Attribute) and call.func.attr == 'verify' and \
-                '__pubkey__' in ast.unparse(call.func.value)
-        lib_nodes = [nd for nd in g.nodes if nd.ast is not None and nd.kind == 'stmt' and
-                     any(is_lib_verify(c) for c in calls_in(nd.ast))]
-        if not lib_nodes:
+        rep.analysed['paths'] += len(outs)
+        libcalls = []
+        for s in outs:
+            for c in s.calls:
+                if lib(c) and c not in libcalls:
+                    libcalls.append(c)
+        if not libcalls:
             rep.violation('C01.3', construct, 'no call self.__pubkey__().verify(...)',
                           'the method never asks the cryptographic library', where=f.where)
             continue
-        handler_nodes = set(nd.id for nd in g.nodes if nd.kind == 'handler')
-        for nd in g.nodes:
-            if nd.kind != 'stmt' or not isinstance(nd.ast, ast.Return):
+        for s in outs:
+            if s.raised is not None:
                 continue
-            v = nd.ast.value
-            truthy = None
-            if isinstance(v, ast.Constant):
-                truthy = bool(v.value)
-            w = '%s:%d' % (f.module.relpath, nd.lineno)
-            if truthy is False:
-                rep.ok('C01.3', construct, 'falsy return at line %d' % nd.lineno)
+            v = s.ret
+            rt = render(v) if v is not None else 'None'
+            if v is None or (isinstance(v, Const) and not isinstance(v.value, Enum) and not v.value):
+                rep.ok('C01.3', construct, 'falsy return %s on path %s' % (rt, [x[0] for x in s.facts]))
                 continue
-            # truthy or unknown return: must be reachable only through a *normal* completion of the library call
-            through_normal = True
-            for ln in lib_nodes:
-                pass
-            # remove the normal out-edges of the library-call nodes: the return must become unreachable
-            skip = set()
-            for ln in lib_nodes:
-                for m, lab in g.succ[ln.id]:
-                    if lab != 'exc':
-                        skip.add((ln.id, m, lab))
-            r = g.reachable(g.entry.id, skip_edges=skip)
-            ok = nd.id not in r
-            rep.check(ok, 'C01.3', construct, 'return %s' % ast.unparse(v) if v is not None else 'return',
+            # truthy or unknown return: only after a *normal* completion of the library call
+            asked = any(lib(c) for c in s.calls)
+            handled = [x[0] for x in s.facts if x[0].startswith('except')]
+            rep.check(asked and not handled, 'C01.3', construct, 'return %s' % rt,
                       'a non-false return is reachable without the library having accepted the signature '
-                      '(handler fall-through or early return)', where=w,
+                      '(handler fall-through or early return)', where=f.where,
                       expected='every path to a truthy return passes the normal exit of self.__pubkey__().verify(...)',
-                      found='return %s reachable when the library call raised or was skipped' % (ast.unparse(v) if v is not None else ''))
+                      found='return %s reachable when the library call %s' % (rt, 'raised (%s)' % ', '.join(handled) if handled else 'was skipped'))
+        # the library rejects (its verify raises InvalidSignature at the call, in the state reached so far): no truthy result
+        sc2 = Scenario(args=sc.args, inline=sc.inline, raises=lambda ft: 'InvalidSignature' if ft.endswith('.verify') and '__pubkey__' in ft else None)
+        outs2 = Interp(prog, sc2).run(f)
+        rep.analysed['paths'] += len(outs2)
+        for s in outs2:
+            if s.raised is not None or not any(lib(c) for c in s.calls):
+                continue
+            v = s.ret
+            rt = render(v) if v is not None else 'None'
+            rep.check(v is None or (isinstance(v, Const) and not isinstance(v.value, Enum) and not v.value), 'C01.3', construct,
+                      'library raises InvalidSignature -> return %s' % rt,
+                      'a non-false return is reachable without the library having accepted the signature '
+                      '(handler fall-through or early return)', where=f.where, expected='falsy constant or an exception',
+                      found='return %s after the library call raised' % rt, scenario='library verify raises InvalidSignature')
         # handlers: only InvalidSignature is swallowed
         for st in ast.walk(f.node):
             if isinstance(st, ast.ExceptHandler):
                 names = [dotted(e) for e in (st.type.elts if isinstance(st.type, ast.Tuple) else [st.type])] if st.type is not None else [None]
-                rep.check(names == ['InvalidSignature'], 'C01.3', construct, 'except %s' % names,
+                rep.check([x.split('.')[-1] if x else x for x in names] == ['InvalidSignature'], 'C01.3', construct, 'except %s' % names,
                           'only InvalidSignature may be converted into a verdict', where='%s:%d' % (f.module.relpath, st.lineno),
                           expected="['InvalidSignature']", found=names)
         # argument roles of the library call
-        I = Interp(prog, Scenario(inline=lambda fn: False))
-        outs = I.run(f)
-        libcalls = []
-        for s in outs:
-            for c in s.calls:
-                if c[0].endswith('.verify') and '__pubkey__' in c[0] and c not in libcalls:
-                    libcalls.append(c)
         for ft, args, kw, line, node in libcalls:
             w = '%s:%d' % (f.module.relpath, line)
             # the caller's signature octets, unchanged or left-padded with zero octets (RSA); never sliced or rebuilt
-            sig_ok = len(args) >= 2 and re.match(r'^(REP\(C\(00\);[^;]*\) )?sigbytes$', args[0]) is not None
-            subj_ok = len(args) >= 2 and (args[1] == 'subj' or
-                                          (args[1].startswith('HASH(hash_alg;') and args[1].rstrip(')').endswith('subj')))
+            sig_ok = len(args) >= 2 and re.match(r'^(REP\(C\(00\);[^;]*\) )?<sigbytes>$', args[0]) is not None
+            subj_ok = len(args) >= 2 and args[1] in ('<subj>', 'HASH(<hash_alg>;<subj>)')
             rep.check(sig_ok and subj_ok, 'C01.3', construct, 'library verify(%s)' % ', '.join(args),
                       'the library must verify the caller\'s signature bytes over the caller\'s data', where=w,
-                      expected='verify(<sigbytes>, subj | HASH(hash_alg; subj), ...)', found=args)
-            if args and 'hash_alg' not in ' '.join(args):
+                      expected='verify(<sigbytes>, <subj> | HASH(<hash_alg>;<subj>), ...)', found=args)
+            if args and '<hash_alg>' not in ' '.join(args + list(kw.values())):
                 rep.violation('C01.3', construct, 'library verify(%s) ignores hash_alg' % ', '.join(args),
                               'the hash algorithm named by the signature is not used', where=w)
     if n == 0:
